@@ -55,8 +55,13 @@ pub fn gen(ch: &mut Chooser, max_variants: usize, key_choices: usize) -> Case {
             (id, *ch.pick("kind", &KINDS), *ch.pick("rename", &RENAMES))
         } else {
             // later variants: every kind, rename ∈ {none, dashed}, the two identifiers of the position
-            let id = *ch.pick("ident", &IDENTS[i]);
-            (id, *ch.pick("kind", &KINDS), *ch.pick("rename2", &[None, Some("other-dash")]))
+            // (the third variant, thorough tier only, is one identifier × 4 kinds to keep the product at ~30M runs)
+            if i == 1 {
+                let id = *ch.pick("ident", &IDENTS[i]);
+                (id, *ch.pick("kind", &KINDS), *ch.pick("rename2", &[None, Some("other-dash")]))
+            } else {
+                (IDENTS[i][0], *ch.pick("kind3", &[PK::Unit, PK::NewString, PK::Struct1, PK::NewBoxSelf]), *ch.pick("rename2", &[None, Some("other-dash")]))
+            }
         };
         variants.push((id.to_string(), pk, rn));
     }
@@ -358,7 +363,7 @@ pub fn run(args: &[String]) -> i32 {
         "enum_encoding",
         accs,
         &stats,
-        json!({"max_variants": maxv, "variant_kinds": 8, "first_variant_renames": 5, "later_variant_renames": 2, "rename_all": 9, "tag_content_pairs": keyn,
+        json!({"max_variants": maxv, "variant_kinds": 8, "first_variant_renames": 5, "later_variant_renames": 2, "third_variant": "1 identifier × 4 kinds × 2 renames (thorough only)", "rename_all": 9, "tag_content_pairs": keyn,
                "attr_styles": 2, "languages": 6, "configs": 2, "generics": "variant kind newtype(T)", "recursion": "variant kind newtype(Box<Self>)"}),
     );
     require_nonvacuous(&mut rep);
